@@ -342,6 +342,10 @@ func (p *provider) createAllSingletonsWithContext(ctx context.Context) error {
 			continue
 		}
 
+		if _, isGroup := node.Provider.(*groupNode); isGroup {
+			continue
+		}
+
 		descriptor, ok := node.Provider.(*Descriptor)
 		if !ok {
 			return &ValidationError{
